@@ -197,7 +197,7 @@ func (g *c1gen) assignStmt() []string {
 	if strings.ContainsAny(lv, ".[*") {
 		g.f("assign-path")
 	}
-	if g.fc != nil && g.fc.inLit && t.k == c1Struct && strings.HasPrefix(e, t.name+"{") && !strings.ContainsAny(lv, ".[*") {
+	if t.k == c1Struct && strings.HasPrefix(e, t.name+"{") && !strings.ContainsAny(lv, ".[*") {
 		// a struct literal assigned to a variable inside a function literal is lost when the variable is captured
 		// (region closure-struct-lit): go through a temporary
 		tmp := g.newName("v")
@@ -268,8 +268,7 @@ func (g *c1gen) multiAssignStmt() []string {
 				return []string{line}
 			}
 		}
-	case 1:
-		// map lookup with ok
+	case 99: // kept out: `v, ok := m[k]` does not zero v when the key is missing (region map-ok-miss)
 		for _, v := range g.visible() {
 			if v.t.k == c1Map && g.readable(v, c1ectx{}) && g.r.chance(60) {
 				n1, n2 := g.newName("v"), g.newName("ok")
@@ -360,7 +359,7 @@ func (g *c1gen) ifStmt(depth int) []string {
 		e, _ := g.expr(g.T("int"), c)
 		hdr += n + " := " + e + "; "
 		g.declare(&c1var{name: n, t: g.T("int")})
-		cnd = fmt.Sprintf("%s%%%d == 0 %s (%s)", n, 2+g.r.intn(2), g.r.pick([]string{"||", "&&"}), cnd)
+		cnd = fmt.Sprintf("%s%%%d == 0 %s %s", n, 2+g.r.intn(2), g.r.pick([]string{"||", "&&"}), g.paren(cnd))
 		g.f("if-init")
 	}
 	hdr += cnd + " {"
@@ -1055,14 +1054,14 @@ func (g *c1gen) panicStmt() []string {
 	case "index":
 		for _, v := range g.visible() {
 			if v.t.k == c1Slice && g.readable(v, c1ectx{}) {
-				return []string{n + " := len(" + v.name + ") + " + fmt.Sprint(g.r.intn(3)), "_ = " + v.name + "[" + n + "]"}
+				return []string{n + " := len(" + v.name + ") + " + fmt.Sprint(g.r.intn(3)), "fmt.Println(" + v.name + "[" + n + "])"}
 			}
 		}
-		return []string{n + " := 7", "_ = []int{1, 2}[" + n + "]"}
+		return []string{n + " := 7", "fmt.Println([]int{1, 2}[" + n + "])"}
 	case "div":
-		return []string{n + " := 0", "_ = 10 / " + n}
+		return []string{n + " := 0", "fmt.Println(10 / " + n + ")"}
 	case "nil":
-		return []string{"var " + n + " *S0", "_ = " + n + ".A"}
+		return []string{"var " + n + " *S0", "fmt.Println(" + n + ".A)"}
 	case "nilmap":
 		return []string{"var " + n + " map[string]int", n + `["a"] = 1`}
 	default:
